@@ -37,6 +37,19 @@ def gen_history(rng, nops):
             return max(0, L - 1)
         return rng.choice(["max", "max-1"])
 
+    if rng.random() < 0.02:
+        # large-array phase: capacity beyond 8192 slots, then puts landing between 1x and 2.2x the capacity
+        cap = rng.choice([8191, 8192, 9000, 16384])
+        c, u = newelem()
+        ops.append((c + ["APUT 0 %d 1" % cap], ("put", cap, u)))
+        model_len[0] = cap + 1
+        for _ in range(rng.choice([1, 2, 3])):
+            tgt = int(model_len[0] * rng.choice([1.0, 1.3, 1.5, 1.51, 1.75, 1.99, 2.0, 2.2]))
+            c, u = newelem()
+            opk = rng.choice(["put", "ins"])
+            ops.append((c + ["%s 0 %d 1" % ("APUT" if opk == "put" else "AINS", tgt)], (opk, tgt, u)))
+            model_len[0] = max(model_len[0], tgt + 1)
+        nops = 4
     for _ in range(nops):
         L = model_len[0]
         r = rng.random()
